@@ -363,12 +363,30 @@ class VGen:
         out = []
         if ty.kind == "st":
             out += [("r", vs) for vs in self.fields_values(ty.fields, cap)]
+            out += [("r", vs) for vs in self.some_none_values(ty.fields, None)]
         elif ty.kind == "en":
             per = max(2, cap // max(1, len(ty.variants)))
             for i, var in enumerate(ty.variants):
                 out += [("e", i, vs) for vs in self.fields_values(var.fields, per)]
+                out += [("e", i, vs) for vs in self.some_none_values(var.fields, None)]
         else:
             out += [self.value(ty) for _ in range(cap)]
+        return out
+
+    def some_none_values(self, fields, base):
+        """for every field whose type is an Option directly inside an Option: the value `Some(None)` (present, written as null),
+        next to otherwise present siblings and next to absent ones"""
+        out = []
+        for i, f in enumerate(fields):
+            if not f.skip and f.codec != "x" and f.ty.kind == "opt" and f.ty.e.kind == "opt":
+                for others_present in (True, False):
+                    vs = []
+                    for j, g in enumerate(fields):
+                        if j == i: vs.append(("so", None))
+                        elif g.codec == "x": vs.append(self.field_value(g, 1, others_present, True))
+                        elif g.ty.kind == "opt" and not g.skip: vs.append(("so", self.value(g.ty.e, 2, True, True)) if others_present else None)
+                        else: vs.append(self.field_value(g, 1, True, True))
+                    out.append(vs)
         return out
 
     def fields_values(self, fields, cap):
@@ -628,6 +646,12 @@ def core_schemas(rng):
     io = t_en([Variant(0), Variant(1)], index_only=True)
     S.append(t_st([F(0, inner), F(1, t_opt(copy.deepcopy(inner))), F(2, t_vec(copy.deepcopy(inner))), F(3, t_opt(e1)), F(4, t_opt(io)), F(5, t_int("u8"))]))
     S.append(t_st([F(0, t_vec(o8())), F(1, t_opt(t_vec(t_text("string")))), F(2, t_vec(t_vec(t_int("i8"))))], enc="m"))
+    # an Option directly inside an Option (the encoder's side of the documented exclusion: `Some(None)` is PRESENT and written as null;
+    # only `None` is absent): trailing and non-trailing, array and map, spelled plainly and as a type parameter, in a variant
+    S.append(t_st([F(0, t_opt(o8())), F(1, t_int("u8"))]))
+    S.append(t_st([F(0, t_int("u8")), F(1, t_opt(o8()))]))
+    S.append(t_st([F(0, t_int("u8")), F(3, t_opt(o8()), spell="generic"), F(1, t_opt(t_opt(t_text("string"))))], enc="m"))
+    S.append(t_en([Variant(0, "p", [F(0, t_opt(o8())), F(1, o8())]), Variant(1, "n", [F(2, t_opt(o8()))], enc="m")]))
     return S
 
 
@@ -723,6 +747,26 @@ def optional_enums(ty):
                 for f in v.fields:
                     if not f.skip: walk(f.ty, f.ty.kind == "opt")
     walk(ty, False)
+    return out
+
+
+def nested_enums(ty):
+    """enums that sit INSIDE the value of an optional field without being that field's own type (behind a mandatory field of a
+    nested struct / variant, or inside a Vec): an unknown variant there makes the decoder give up the whole optional field."""
+    out = []
+    def walk(t, inside_opt, direct):
+        k = t.kind
+        if k == "opt": walk(t.e, True, direct)
+        elif k == "vec": walk(t.e, inside_opt, False)
+        elif k == "st":
+            for f in t.fields:
+                if not f.skip: walk(f.ty, inside_opt or f.ty.kind == "opt", f.ty.kind == "opt")
+        elif k == "en":
+            if inside_opt and not direct: out.append(t)
+            for v in t.variants:
+                for f in v.fields:
+                    if not f.skip: walk(f.ty, inside_opt or f.ty.kind == "opt", f.ty.kind == "opt")
+    walk(ty, False, False)
     return out
 
 
@@ -917,6 +961,17 @@ def core_chains():
         def body(k): return [F(0, t_int("u8"))] + [F(i, t_opt(t_bool())) for i in grp[:k]]
         vers = [t_st([F(0, t_en([Variant(0, "n", body(k), enc="m"), Variant(1)])), F(1, t_vec(t_st(body(k), enc="m")))]) for k in range(len(grp) + 1)]
         out.append(Chain(vers, ["base"] + [f"add optional field at new index {i}" for i in grp]))
+    # an unknown variant DEEPER inside the value of an optional field (behind a mandatory field of a nested struct, inside a Vec, inside a
+    # variant body): the whole optional field becomes None and the siblings after it are untouched (array and map encoding)
+    def kind(n, io=False): return t_en([Variant(i) if (io or i % 2 == 0) else Variant(i, "p", [F(0, t_int("u8"))]) for i in range(n)], index_only=io)
+    for enc in ("d", "m"):
+        for io in (False, True):
+            vers = [t_st([F(0, t_opt(t_st([F(0, t_int("u8")), F(1, kind(n, io)), F(2, t_text("string"))], enc=enc))), F(1, t_int("u16")), F(2, t_opt(t_bool()))], enc=enc) for n in (2, 3)]
+            out.append(Chain(vers, ["base", "add variant 2 to an enum nested inside an optional field"]))
+            vers = [t_st([F(0, t_int("u8")), F(1, t_opt(t_vec(kind(n, io)))), F(2, t_text("string"))], enc=enc) for n in (2, 3)]
+            out.append(Chain(vers, ["base", "add variant 2 to an enum nested inside an optional field"]))
+            vers = [t_st([F(0, t_opt(t_en([Variant(0), Variant(1, "n", [F(0, kind(n, io)), F(1, t_int("u8"))], enc=enc)]))), F(3, t_int("i8"))], enc=enc) for n in (2, 3)]
+            out.append(Chain(vers, ["base", "add variant 2 to an enum nested inside an optional field"]))
     # the example of the documentation: regular enum under Option, unit variant -> tuple variant, new struct variant
     e1 = t_en([Variant(0)])
     e2 = t_en([Variant(0, "p", [F(0, t_opt(t_int("i64")))])])
